@@ -133,6 +133,9 @@ func agree(line, a, b string) bool {
 		return true
 	}
 	f := strings.Fields(line)
+	if len(f) > 2 && f[2] == "removeall" && refusedRemoveAll(a) && refusedRemoveAll(b) {
+		return true // which entry refuses first depends on the order of the traversal
+	}
 	return len(f) > 4 && f[2] == "file" && a == "err closed" && strings.HasPrefix(b, "err ")
 }
 
@@ -162,8 +165,12 @@ func corrKernelWith(k kImpl, seed uint64, tier string, replay []string, prop str
 		st.Count("replay", "replay")
 		st.Count("replay", "replay2")
 	} else if opts.small {
-		res.Rule = "the bounded-exhaustive scenarios of small.go (one level shallower than against the model: " + smallRule() + ") issued to " + k.name + " and, through OsFS, to the Linux kernel on a fresh tmpfs directory (users through setfsuid); outcomes and the whole tree after every call; a case is one call; distinct non-trivial = distinct (scenario, call kind, outcome)"
-		sh, names := smallHistoriesDepth(tier, "", -1)
+		res.Rule = "the bounded-exhaustive scenarios of small.go (one level shallower than the quick tier of memfs-small: " + smallRule() + ") issued to " + k.name + " and, through OsFS, to the Linux kernel on a fresh tmpfs directory (users through setfsuid); outcomes and the whole tree after every call; a case is one call; distinct non-trivial = distinct (scenario, call kind, outcome)"
+		delta := -1
+		if tier == "thorough" {
+			delta = -2 // every history needs an oracle process of its own: the depth of the quick tier of memfs-small, minus one
+		}
+		sh, names := smallHistoriesDepth(tier, "", delta)
 		seenSig := map[string]bool{}
 		for i, h0 := range sh {
 			if names[i] == "removeall-foreign-subdir" && false {
